@@ -1,4 +1,5 @@
 import ParryModel.C13.Lemmas
+import ParryModel.C13.Lemmas3
 import ParryModel.C13.Model4
 /-!
 # C13 lemmas for `with_inertia_matrix`: quaternion ↔ rotation matrix round trip, renormalisation, orthonormality
@@ -193,9 +194,6 @@ theorem conj_diag_mul (q : Quat K) (hq : UnitQ q) (d e : V3 K) :
   rw [transpose_mul_cancel sq q hq, ← m3_mul_assoc sq (@M3.diag K (fieldNum K sq) d), diag_mul_diag]
 
 /-! ### 3-D `Sum`: fold lemmas -/
-def mzero : M3 K := ⟨⟨0, 0, 0⟩, ⟨0, 0, 0⟩, ⟨0, 0, 0⟩⟩
-/-- entrywise sum of a list of matrices -/
-def msum (l : List (M3 K)) : M3 K := l.foldr madd mzero
 def totMass3 (ps : List (MP3 K)) : K := (ps.map massOf3).sum
 def totF3 (ps : List (MP3 K)) : V3 K :=
   ⟨(ps.map fun a => a.com.x * massOf3 a).sum, (ps.map fun a => a.com.y * massOf3 a).sum, (ps.map fun a => a.com.z * massOf3 a).sum⟩
